@@ -131,6 +131,20 @@ def CClaimA (n : Nat) : Prop :=
 
 theorem foBuiltins_ne_empty : ∀ h ∈ foBuiltins, h ≠ "" := by decide
 
+/-- what compiling leaves of the generator state: function table, live stack and compile-time loop
+stack as before; loop records only appended -/
+structure GExt (gs gs' : GS) : Prop where
+  fns : gs'.fns = gs.fns
+  stack : gs'.loopstack = gs.loopstack
+  len : gs.loops.length ≤ gs'.loops.length
+  loops : ∀ id, id < gs.loops.length → gs'.loops.getD id {} = gs.loops.getD id {}
+
+theorem GExt.refl (gs : GS) : GExt gs gs := ⟨rfl, rfl, Nat.le_refl _, fun _ _ => rfl⟩
+
+theorem GExt.trans {a b c : GS} (h₁ : GExt a b) (h₂ : GExt b c) : GExt a c :=
+  ⟨h₂.fns.trans h₁.fns, h₂.stack.trans h₁.stack, Nat.le_trans h₁.len h₂.len,
+   fun id hid => (h₂.loops id (Nat.lt_of_lt_of_le hid h₁.len)).trans (h₁.loops id hid)⟩
+
 /-- the generator state inside a `for`: a fresh loop record, pushed on the compile-time loop stack -/
 def forGs (gs : GS) (c : Ctx) (label : Option String) : GS :=
   { gs with loops := gs.loops ++ [({ label, scopeDepth := c.scopes } : LoopRec)], loopstack := gs.loops.length :: gs.loopstack }
@@ -139,6 +153,22 @@ def forGs (gs : GS) (c : Ctx) (label : Option String) : GS :=
 def forDone (g5 : GS) (loop : Nat) (brk cont : Int) : GS :=
   { g5 with loopstack := g5.loopstack.drop 1,
             loops := g5.loops.set loop ({ (g5.loops.getD loop {}) with breakOff := brk, contOff := cont } : LoopRec) }
+
+/-- a whole `for`: the record is pushed, the parts only append, the record is completed and popped -/
+theorem GExt.for_ {gs g5 : GS} {c : Ctx} {label : Option String} {brk cont : Int} (h : GExt (forGs gs c label) g5) :
+    GExt gs (forDone g5 gs.loops.length brk cont) := by
+  refine ⟨h.fns, ?_, ?_, fun id hid => ?_⟩
+  · show g5.loopstack.drop 1 = gs.loopstack
+    rw [h.stack]; rfl
+  · show gs.loops.length ≤ (g5.loops.set _ _).length
+    have := h.len
+    simp only [forGs, List.length_append, List.length_cons, List.length_nil, List.length_set] at this ⊢
+    omega
+  · show (g5.loops.set gs.loops.length _).getD id {} = _
+    have hne : gs.loops.length ≠ id := by omega
+    rw [List.getD_eq_getElem?_getD, List.getElem?_set_ne hne, ← List.getD_eq_getElem?_getD,
+      h.loops id (by simp [forGs]; omega)]
+    simp only [forGs, List.getD_eq_getElem?_getD, List.getElem?_append_left hid]
 
 /-- the code of a `for` loop, from the code of its four parts -/
 def forCode (loop : Nat) (i t s b : List Instr) : List Instr :=
@@ -192,16 +222,16 @@ theorem compile_for_eq (isFn : Nat → Bool) (c : Ctx) (label : Option String) (
 
 mutual
 theorem compile_total_Fc : ∀ (e : Expr), Fc e = true → ∀ isFn c gs, c.funcname = "" →
-    ∃ code t gs', (compile isFn c e).run gs = .ok ((code, t), gs') ∧ code ≠ [] ∧ gs'.fns = gs.fns
-  | .int v, _, isFn, c, gs, hfn => ⟨_, _, gs, by rw [compile]; rfl, by simp, rfl⟩
-  | .bool v, _, isFn, c, gs, hfn => ⟨_, _, gs, by rw [compile]; rfl, by simp, rfl⟩
-  | .str v, _, isFn, c, gs, hfn => ⟨_, _, gs, by rw [compile]; rfl, by simp, rfl⟩
-  | .nilLit, _, isFn, c, gs, hfn => ⟨_, _, gs, by rw [compile]; rfl, by simp, rfl⟩
-  | .sym x, _, isFn, c, gs, hfn => ⟨_, _, gs, by rw [compile]; rfl, by simp, rfl⟩
+    ∃ code t gs', (compile isFn c e).run gs = .ok ((code, t), gs') ∧ code ≠ [] ∧ GExt gs gs'
+  | .int v, _, isFn, c, gs, hfn => ⟨_, _, gs, by rw [compile]; rfl, by simp, GExt.refl _⟩
+  | .bool v, _, isFn, c, gs, hfn => ⟨_, _, gs, by rw [compile]; rfl, by simp, GExt.refl _⟩
+  | .str v, _, isFn, c, gs, hfn => ⟨_, _, gs, by rw [compile]; rfl, by simp, GExt.refl _⟩
+  | .nilLit, _, isFn, c, gs, hfn => ⟨_, _, gs, by rw [compile]; rfl, by simp, GExt.refl _⟩
+  | .sym x, _, isFn, c, gs, hfn => ⟨_, _, gs, by rw [compile]; rfl, by simp, GExt.refl _⟩
   | .begin_ es, he, isFn, c, gs, hfn => by
     rw [Fc] at he
     cases es with
-    | nil => exact ⟨[.push .nil], c.tail, gs, by rw [compile]; rfl, by simp, rfl⟩   -- (begin) yields nil (fix C04-02)
+    | nil => exact ⟨[.push .nil], c.tail, gs, by rw [compile]; rfl, by simp, GExt.refl _⟩   -- (begin) yields nil (fix C04-02)
     | cons e0 es0 =>
       rw [compile]
       · exact compileBegin_total_Fc (e0 :: es0) (by simp) he isFn c gs hfn
@@ -227,7 +257,7 @@ theorem compile_total_Fc : ∀ (e : Expr), Fc e = true → ∀ isFn c gs, c.func
     simp only [Bool.and_eq_true] at he
     obtain ⟨dc, t, g1, hd, hdne, hf1⟩ := compile_total_Fc d he.2 isFn c gs hfn
     obtain ⟨as, g2, has, hf2⟩ := compileArms_total_Fc arms he.1 isFn c g1 hfn
-    refine ⟨asmCond as dc, c.tail, g2, ?_, asmCond_ne_nil as dc hdne, hf2.trans hf1⟩
+    refine ⟨asmCond as dc, c.tail, g2, ?_, asmCond_ne_nil as dc hdne, hf1.trans hf2⟩
     rw [compile]
     simp only [g_bind_ok, g_pure_ok]
     exact ⟨_, _, hd, _, _, has, rfl⟩
@@ -265,7 +295,7 @@ theorem compile_total_Fc : ∀ (e : Expr), Fc e = true → ∀ isFn c gs, c.func
     obtain ⟨rhs, t1, g1, h1, hf1⟩ := compileBinds_total_Fc bs hbs isFn { c with scopes := c.scopes + 1, tail := false } seq gs hfn
     obtain ⟨b, t2, g2, h2, _, hf2⟩ := compileBegin_total_Fc body hbody hbl isFn { c with scopes := c.scopes + 1 } g1 hfn
     refine ⟨[.addScope] ++ rhs ++ (if seq then [] else (bs.map (fun p => Instr.popStackPutEnv p.1)).reverse)
-      ++ b ++ [.removeScope], t2, g2, ?_, by simp, hf2.trans hf1⟩
+      ++ b ++ [.removeScope], t2, g2, ?_, by simp, hf1.trans hf2⟩
     rw [compile]
     simp only [g_bind_ok, g_pure_ok]
     exact ⟨_, _, h1, _, _, h2, rfl⟩
@@ -274,7 +304,7 @@ theorem compile_total_Fc : ∀ (e : Expr), Fc e = true → ∀ isFn c gs, c.func
     | sym h =>
       rw [Fc] at he
       simp only [Bool.and_eq_true, List.contains_iff_mem] at he
-      refine ⟨[.callExpr (.sym h) args], c.tail, gs, ?_, by simp, rfl⟩
+      refine ⟨[.callExpr (.sym h) args], c.tail, gs, ?_, by simp, GExt.refl _⟩
       rw [compile]
       have hne : (h == c.funcname) = false := by
         rw [hfn]; have := foBuiltins_ne_empty h he.1; simpa using this
@@ -311,13 +341,12 @@ theorem compile_total_Fc : ∀ (e : Expr), Fc e = true → ∀ isFn c gs, c.func
       rw [h4]
       simp only
       rw [h5]
-    · show g5.fns = gs.fns
-      rw [hf5, hf4, hf3, hf2]; rfl
+    · exact GExt.for_ (((hf2.trans hf3).trans hf4).trans hf5)
   | .break_ _, he, _, _, _, _ | .continue_ _, he, _, _, _, _
   | .fn _ _ _, he, _, _, _, _ | .defn _ _ _ _, he, _, _, _, _ | .assign _ _, he, _, _, _, _ | .bad _, he, _, _, _, _ => by
     simp [Fc] at he
 theorem compileBegin_total_Fc : ∀ (es : List Expr), es ≠ [] → FcList es = true → ∀ isFn c gs, c.funcname = "" →
-    ∃ code t gs', (compileBegin isFn c es).run gs = .ok ((code, t), gs') ∧ code ≠ [] ∧ gs'.fns = gs.fns
+    ∃ code t gs', (compileBegin isFn c es).run gs = .ok ((code, t), gs') ∧ code ≠ [] ∧ GExt gs gs'
   | [], hne, _, _, _, _, _ => absurd rfl hne
   | [e], _, he, isFn, c, gs, hfn => by
     rw [FcList] at he
@@ -329,21 +358,21 @@ theorem compileBegin_total_Fc : ∀ (es : List Expr), es ≠ [] → FcList es = 
     simp only [Bool.and_eq_true] at he
     obtain ⟨a, ta, g1, ha, hane, hf1⟩ := compile_total_Fc e he.1 isFn { c with tail := false } gs hfn
     obtain ⟨b, tb, g2, hb, _, hf2⟩ := compileBegin_total_Fc (e' :: es) (by simp) he.2 isFn c g1 hfn
-    refine ⟨a ++ (if a.isEmpty then [] else [.pop]) ++ b, tb, g2, ?_, by simp [hane], hf2.trans hf1⟩
+    refine ⟨a ++ (if a.isEmpty then [] else [.pop]) ++ b, tb, g2, ?_, by simp [hane], hf1.trans hf2⟩
     rw [compileBegin]
     · simp only [g_bind_ok, g_pure_ok]
       exact ⟨_, _, ha, _, _, hb, rfl⟩
     · intro hh; cases hh
 /-- a statement list that may be empty (the body of a `for`) -/
 theorem compileBeginAny_total_Fc : ∀ (es : List Expr), FcList es = true → ∀ isFn c gs, c.funcname = "" →
-    ∃ code t gs', (compileBegin isFn c es).run gs = .ok ((code, t), gs') ∧ gs'.fns = gs.fns
-  | [], _, isFn, c, gs, _ => ⟨[], false, gs, by rw [compileBegin]; rfl, rfl⟩
+    ∃ code t gs', (compileBegin isFn c es).run gs = .ok ((code, t), gs') ∧ GExt gs gs'
+  | [], _, isFn, c, gs, _ => ⟨[], false, gs, by rw [compileBegin]; rfl, GExt.refl _⟩
   | e :: es, he, isFn, c, gs, hfn => by
     obtain ⟨code, t, g1, h1, _, hf1⟩ := compileBegin_total_Fc (e :: es) (by simp) he isFn c gs hfn
     exact ⟨code, t, g1, h1, hf1⟩
 theorem compileSC_total_Fc : ∀ (es : List Expr), FcList es = true → ∀ isFn c gs, c.funcname = "" →
-    ∃ cs gs', (compileSC isFn c es).run gs = .ok (cs, gs') ∧ (∀ c ∈ cs, c ≠ []) ∧ gs'.fns = gs.fns
-  | [], _, isFn, c, gs, hfn => ⟨[], gs, by rw [compileSC]; rfl, by simp, rfl⟩
+    ∃ cs gs', (compileSC isFn c es).run gs = .ok (cs, gs') ∧ (∀ c ∈ cs, c ≠ []) ∧ GExt gs gs'
+  | [], _, isFn, c, gs, hfn => ⟨[], gs, by rw [compileSC]; rfl, by simp, GExt.refl _⟩
   | [e], he, isFn, c, gs, hfn => by
     rw [FcList] at he
     simp only [Bool.and_eq_true] at he
@@ -357,7 +386,7 @@ theorem compileSC_total_Fc : ∀ (es : List Expr), FcList es = true → ∀ isFn
     simp only [Bool.and_eq_true] at he
     obtain ⟨b, g1, hb, hbne, hf1⟩ := compileSC_total_Fc (e' :: es) he.2 isFn c gs hfn
     obtain ⟨a, t, g2, ha, hane, hf2⟩ := compile_total_Fc e he.1 isFn { c with tail := false } g1 hfn
-    refine ⟨a :: b, g2, ?_, ?_, hf2.trans hf1⟩
+    refine ⟨a :: b, g2, ?_, ?_, hf1.trans hf2⟩
     · rw [compileSC]
       · simp only [g_bind_ok, g_pure_ok]
         exact ⟨_, _, hb, _, _, ha, rfl⟩
@@ -367,7 +396,7 @@ theorem compileSC_total_Fc : ∀ (es : List Expr), FcList es = true → ∀ isFn
       · exact hane
       · exact hbne x hx
 theorem compileNewScope_total_Fc : ∀ (es : List Expr), es ≠ [] → FcList es = true → ∀ isFn c oldtail gs, c.funcname = "" →
-    ∃ code t gs', (compileNewScope isFn c oldtail es).run gs = .ok ((code, t), gs') ∧ code ≠ [] ∧ gs'.fns = gs.fns
+    ∃ code t gs', (compileNewScope isFn c oldtail es).run gs = .ok ((code, t), gs') ∧ code ≠ [] ∧ GExt gs gs'
   | [], hne, _, _, _, _, _, _ => absurd rfl hne
   | [e], _, he, isFn, c, oldtail, gs, hfn => by
     rw [FcList] at he
@@ -379,45 +408,45 @@ theorem compileNewScope_total_Fc : ∀ (es : List Expr), es ≠ [] → FcList es
     simp only [Bool.and_eq_true] at he
     obtain ⟨a, ta, g1, ha, hane, hf1⟩ := compile_total_Fc e he.1 isFn { c with tail := false } gs hfn
     obtain ⟨b, tb, g2, hb, _, hf2⟩ := compileNewScope_total_Fc (e' :: es) (by simp) he.2 isFn c oldtail g1 hfn
-    refine ⟨a ++ [.pop] ++ b, tb, g2, ?_, by simp, hf2.trans hf1⟩
+    refine ⟨a ++ [.pop] ++ b, tb, g2, ?_, by simp, hf1.trans hf2⟩
     rw [compileNewScope]
     · simp only [g_bind_ok, g_pure_ok]
       exact ⟨_, _, ha, _, _, hb, rfl⟩
     · intro hh; cases hh
 theorem compileBinds_total_Fc : ∀ (bs : List (String × Expr)), FcBinds bs = true → ∀ isFn c seq gs, c.funcname = "" →
-    ∃ code t gs', (compileBinds isFn c seq bs).run gs = .ok ((code, t), gs') ∧ gs'.fns = gs.fns
-  | [], _, isFn, c, seq, gs, hfn => ⟨[], c.tail, gs, by rw [compileBinds]; rfl, rfl⟩
+    ∃ code t gs', (compileBinds isFn c seq bs).run gs = .ok ((code, t), gs') ∧ GExt gs gs'
+  | [], _, isFn, c, seq, gs, hfn => ⟨[], c.tail, gs, by rw [compileBinds]; rfl, GExt.refl _⟩
   | (x, e) :: bs, he, isFn, c, seq, gs, hfn => by
     rw [FcBinds] at he
     simp only [Bool.and_eq_true] at he
     obtain ⟨a, ta, g1, ha, _, hf1⟩ := compile_total_Fc e he.1.2 isFn c gs hfn
     obtain ⟨b, tb, g2, hb, hf2⟩ := compileBinds_total_Fc bs he.2 isFn { c with tail := ta } seq g1 hfn
-    refine ⟨a ++ (if seq then [.popStackPutEnv x] else []) ++ b, tb, g2, ?_, hf2.trans hf1⟩
+    refine ⟨a ++ (if seq then [.popStackPutEnv x] else []) ++ b, tb, g2, ?_, hf1.trans hf2⟩
     rw [compileBinds]
     simp only [g_bind_ok, g_pure_ok]
     exact ⟨_, _, ha, _, _, hb, rfl⟩
 theorem compileAll_total_Fc : ∀ (es : List Expr), FcList es = true → ∀ isFn c gs, c.funcname = "" →
-    ∃ code t gs', (compileAll isFn c es).run gs = .ok ((code, t), gs') ∧ gs'.fns = gs.fns
-  | [], _, isFn, c, gs, hfn => ⟨[], c.tail, gs, by rw [compileAll]; rfl, rfl⟩
+    ∃ code t gs', (compileAll isFn c es).run gs = .ok ((code, t), gs') ∧ GExt gs gs'
+  | [], _, isFn, c, gs, hfn => ⟨[], c.tail, gs, by rw [compileAll]; rfl, GExt.refl _⟩
   | e :: es, he, isFn, c, gs, hfn => by
     rw [FcList] at he
     simp only [Bool.and_eq_true] at he
     obtain ⟨a, ta, g1, ha, _, hf1⟩ := compile_total_Fc e he.1 isFn c gs hfn
     obtain ⟨b, tb, g2, hb, hf2⟩ := compileAll_total_Fc es he.2 isFn { c with tail := ta } g1 hfn
-    refine ⟨a ++ b, tb, g2, ?_, hf2.trans hf1⟩
+    refine ⟨a ++ b, tb, g2, ?_, hf1.trans hf2⟩
     rw [compileAll]
     simp only [g_bind_ok, g_pure_ok]
     exact ⟨_, _, ha, _, _, hb, rfl⟩
 theorem compileArms_total_Fc : ∀ (arms : List (Expr × Expr)), FcArms arms = true → ∀ isFn c gs, c.funcname = "" →
-    ∃ as gs', (compileArms isFn c arms).run gs = .ok (as, gs') ∧ gs'.fns = gs.fns
-  | [], _, isFn, c, gs, hfn => ⟨[], gs, by rw [compileArms]; rfl, rfl⟩
+    ∃ as gs', (compileArms isFn c arms).run gs = .ok (as, gs') ∧ GExt gs gs'
+  | [], _, isFn, c, gs, hfn => ⟨[], gs, by rw [compileArms]; rfl, GExt.refl _⟩
   | (p, b) :: arms, he, isFn, c, gs, hfn => by
     rw [FcArms] at he
     simp only [Bool.and_eq_true] at he
     obtain ⟨r, g1, hr, hf1⟩ := compileArms_total_Fc arms he.2 isFn c gs hfn
     obtain ⟨pc, _, g2, hp, _, hf2⟩ := compile_total_Fc p he.1.1 isFn { c with tail := false } g1 hfn
     obtain ⟨bc, _, g3, hb, _, hf3⟩ := compile_total_Fc b he.1.2 isFn c g2 hfn
-    refine ⟨(pc, bc) :: r, g3, ?_, (hf3.trans hf2).trans hf1⟩
+    refine ⟨(pc, bc) :: r, g3, ?_, (hf1.trans hf2).trans hf3⟩
     rw [compileArms]
     simp only [g_bind_ok, g_pure_ok]
     exact ⟨_, _, hr, _, _, hp, _, _, hb, rfl⟩
@@ -673,7 +702,7 @@ theorem SimC.scoped {inner pre post : List Instr} {s : St} {rs : Ref.St} {env : 
     obtain ⟨r4, l4⟩ := glue_removeScope h l' hlin
     obtain ⟨hl, hc, ha, hs⟩ := fr3.pushScope_inner
     have hframe : Frame s s3.popScope :=
-      ⟨hl, hc, ha, hs, fr3.fnsLen, fr3.fns⟩
+      ⟨hl, hc, ha, hs, fr3.fnsLen, fr3.fns, fr3.loopsLen, fr3.loops⟩
     refine ⟨_, ((r1.toX.trans r).trans r4.toX), l4,
       ⟨rel3.toRelCore.popScope f hf hp, ?_, rel3.globals, rel3.clean⟩, (FramesExt.newFrame rs env).trans ext3, hframe,
       hcl⟩
@@ -871,12 +900,12 @@ theorem evalCallExpr_nonsym_sim {n : Nat} (hE : CClaimE n) (e : Expr) (he : Fc e
     { fns := s0.fns, loops := s0.loops, loopstack := s0.loopstack, live := s0.linear } rfl
   -- the generator may have registered loop records (a `for` inside the operand): `s` is `s0` with them
   have hgen : (runGen (compile (isFnScope s0) {} e)).run s0 = (.ok (code, t), withLoops s0 gs') :=
-    run_runGen_any _ s0 _ gs' hc hfns
+    run_runGen_any _ s0 _ gs' hc hfns.fns
   generalize hs : withLoops s0 gs' = s at hgen
   have hrel : RelC s rs env := by
     subst hs; exact hrel0.of_same rfl rfl rfl rfl rfl hrel0.heap hrel0.trace hrel0.clean
   have hs0 : Frame s0 s ∧ s.data = s0.data ∧ s.pc = s0.pc := by
-    subst hs; exact ⟨⟨rfl, rfl, rfl, rfl, Nat.le_refl _, fun _ _ => rfl⟩, rfl, rfl⟩
+    subst hs; exact ⟨⟨rfl, rfl, rfl, rfl, Nat.le_refl _, fun _ _ => rfl, hfns.len, hfns.loops⟩, rfl, rfl⟩
   have hseg := seg_inHelper s code
   have hsim := hE e he (isFnScope s0) {} _ ((code, t), _) hc rfl (inHelper s code) rs env [] [.ret]
     (relC_inHelper hrel code) hseg
@@ -908,7 +937,7 @@ theorem evalCallExpr_nonsym_sim {n : Nat} (hE : CClaimE n) (e : Expr) (he : Fc e
     · exact hs0.1.trans ⟨fr4.linear, rfl, rfl, fr4.susp,
         Nat.le_trans (by show s.fns.length ≤ (s.fns ++ [_]).length; simp) fr4.fnsLen,
         fun id hid => (fr4.fns id (by show id < (s.fns ++ [_]).length; simp; omega)).trans
-          (fnOf_inHelper_old s code id hid)⟩
+          (fnOf_inHelper_old s code id hid), fr4.loopsLen, fr4.loops⟩
   | err rs' =>
     rw [hres] at hsim
     obtain ⟨M, hM⟩ := run_of_failsE hsim
@@ -1090,9 +1119,10 @@ theorem simC_call {m : Nat} (hA : CClaimA (m + 1)) (h : String) (hh : h ∈ foBu
     -- the successful case, uniformly in the new heap and trace
     have hok : ∀ (v : Val) (s3 : St) (rsF : Ref.St), foResult h vs (inBuiltin s1 s.data) = (.ok v, s3) →
         s3.scopes = s1.scopes → s3.linear = s1.linear → s3.fns = s1.fns → s3.suspended = s1.suspended →
+        s3.loops = s1.loops →
         rsF.frames = rs1.frames → s3.heap = rsF.heap → s3.trace = rsF.trace → CleanSt rsF → Clean v →
         SimC [.callExpr (.sym h) args] s rs env (.ok v rsF) := by
-      intro v s3 rsF hres hsc hlin hfns hsus hfr hheap htr hclF hclv
+      intro v s3 rsF hres hsc hlin hfns hsus hlps hfr hheap htr hclF hclv
       let sF : St := { s3 with data := some v :: s.data, addr := s1.addr, curfunc := s1.curfunc, pc := s1.pc + 1 }
       have hx : ∀ f, M + 3 ≤ f → (exec (f + 1) (.callExpr (.sym h) args)).run s = (.ok (), sF) := by
         intro f hf
@@ -1108,14 +1138,16 @@ theorem simC_call {m : Nat} (hA : CClaimA (m + 1)) (h : String) (hh : h ∈ foBu
         ext1.trans (fun i fr hf => ⟨fr, by rw [hfr]; exact hf, rfl⟩),
         ⟨hlin.trans fr1.linear, fr1.curfunc, fr1.addr, hsus.trans fr1.susp,
           by show s.fns.length ≤ s3.fns.length; rw [hfns]; exact fr1.fnsLen,
-          fun id hid => by show s3.fns.getD id {} = _; rw [hfns]; exact fr1.fns id hid⟩, hclv⟩
+          fun id hid => by show s3.fns.getD id {} = _; rw [hfns]; exact fr1.fns id hid,
+          by show s.loops.length ≤ s3.loops.length; rw [hlps]; exact fr1.loopsLen,
+          fun id hid => by show s3.loops.getD id {} = _; rw [hlps]; exact fr1.loops id hid⟩, hclv⟩
     by_cases ht : h = "trace"
     · simp only [ht, if_true]
       rw [ht] at hok
       have hfo : foResult "trace" vs (inBuiltin s1 s.data) = (.ok (vs.headD .nil),
           { inBuiltin s1 s.data with trace := (inBuiltin s1 s.data).trace ++ [pr (inBuiltin s1 s.data).heap (vs.headD .nil)] }) := by
         unfold foResult; rw [if_pos rfl]
-      exact hok _ _ { rs1 with trace := rs1.trace ++ [pr rs1.heap (vs.headD .nil)] } hfo rfl rfl rfl rfl rfl
+      exact hok _ _ { rs1 with trace := rs1.trace ++ [pr rs1.heap (vs.headD .nil)] } hfo rfl rfl rfl rfl rfl rfl
         rel1.heap (by show (inBuiltin s1 s.data).trace ++ [pr (inBuiltin s1 s.data).heap _] = _; rw [hheapb, htrb])
         rel1.clean (by cases vs with | nil => trivial | cons v0 _ => exact hclvs v0 List.mem_cons_self)
     · simp only [ht, if_false]
@@ -1126,7 +1158,7 @@ theorem simC_call {m : Nat} (hA : CClaimA (m + 1)) (h : String) (hh : h ∈ foBu
           unfold foResult; rw [if_neg ht, hheapb, hp]
         simp only
         have hpc := prim_clean h (foBuiltins_prim hh ht) vs rs1.heap v hp' hp hclvs rel1.clean.2
-        exact hok v _ { rs1 with heap := hp' } hfo rfl rfl rfl rfl rfl rfl rel1.trace ⟨rel1.clean.1, hpc.2⟩ hpc.1
+        exact hok v _ { rs1 with heap := hp' } hfo rfl rfl rfl rfl rfl rfl rfl rel1.trace ⟨rel1.clean.1, hpc.2⟩ hpc.1
       | none =>
         have hfo : foResult h vs (inBuiltin s1 s.data) = (.error .err, inBuiltin s1 s.data) := by
           unfold foResult; rw [if_neg ht, hheapb, hp]
@@ -1552,7 +1584,7 @@ theorem simC_arr_tail {s s₁ : St} {rs rs₁ : Ref.St} {env : Nat} {pre post ca
   refine ⟨_, (r1.trans (ReachX.step a2 2 hx)), ⟨?_, ?_, rfl⟩,
     rel1.of_same rfl rfl rfl rfl rfl rfl rel1.trace ⟨rel1.clean.1, cleanHeap_alloc rel1.clean.2 vs hclvs⟩,
     ext1.trans (fun i fr hf => ⟨fr, hf, rfl⟩),
-    fr1.trans ⟨rfl, rfl, rfl, rfl, Nat.le_refl _, fun _ _ => rfl⟩, trivial⟩
+    fr1.trans ⟨rfl, rfl, rfl, rfl, Nat.le_refl _, fun _ _ => rfl, Nat.le_refl _, fun _ _ => rfl⟩, trivial⟩
   · exact hfn1
   · show s₁.pc + 1 = _
     rw [hpc1, hlen]; push_cast; omega
@@ -1891,7 +1923,7 @@ theorem cclaimE_for {n : Nat} (hE : CClaimE n) (hF : CClaimF n) {label : Option 
     subst hs2; show s.pc + 1 + 1 = _; rw [hpc]; push_cast; omega
   have hd2 : s2.data = s.data := by subst hs2; rfl
   have rel2 : RelC s2 (Ref.newFrame rs env).2 rs.frames.length := by subst hs2; exact (hrel.jmp _ _).pushScope
-  have hfr2 : Frame s.pushScope s2 := by subst hs2; exact ⟨rfl, rfl, rfl, rfl, Nat.le_refl _, fun _ _ => rfl⟩
+  have hfr2 : Frame s.pushScope s2 := by subst hs2; exact ⟨rfl, rfl, rfl, rfl, Nat.le_refl _, fun _ _ => rfl, Nat.le_refl _, fun _ _ => rfl⟩
   have hfn2 : fnOf s2 s2.curfunc = fnOf s s.curfunc := by subst hs2; rfl
   have a2 : At s2 (pre ++ [.loopStart gs.loops.length, .addScope]) (.pushMark gs.loops.length) ([.label] ++ ri.1
       ++ fMid gs.loops.length rsn.1 ++ rsn.1 ++ [.popUntilMark gs.loops.length, .label] ++ rt.1 ++ fBr rb.1 ++ rb.1
@@ -1996,7 +2028,7 @@ theorem cclaimE_for {n : Nat} (hE : CClaimE n) (hF : CClaimF n) {label : Option 
       obtain ⟨f0, hf0, hp0⟩ := (ext6.trans ext8) rs.frames.length { parent := some env }
         (by show (rs.frames ++ [_])[rs.frames.length]? = _; simp)
       obtain ⟨hl, hcur, haddr, hsus⟩ := hfr_in.pushScope_inner
-      have hframe : Frame s s10.popScope := ⟨hl, hcur, haddr, hsus, hfr_in.fnsLen, hfr_in.fns⟩
+      have hframe : Frame s s10.popScope := ⟨hl, hcur, haddr, hsus, hfr_in.fnsLen, hfr_in.fns, hfr_in.loopsLen, hfr_in.loops⟩
       refine ⟨_, (((((hreach7.trans r8).trans r9).trans r10).trans r11).trans r12), ⟨hfn10, ?_, ?_⟩,
         (⟨rel10.toRelCore.popScope f0 hf0 hp0, ?_, rel10.globals, rel10.clean⟩ : RelC s10.popScope rs3 env).jmp _ _,
         (FramesExt.newFrame rs env).trans (ext6.trans ext8), hframe.trans (Frame.jmp _ _ _), trivial⟩
